@@ -355,6 +355,50 @@ class NumpyFuncs:
     def np_argmin(self, st, args, kw, node):
         return self._argext(st, args[0], False, node, "np.argmin")
 
+    def np_min(self, st, args, kw, node):
+        if kw or len(args) != 1:
+            raise Unsupported("np.min with axis / keywords")
+        a = self.as_arr(args[0]) if isinstance(args[0], Lst) else args[0]
+        return a.get(self._argext(st, a, False, node, "np.min"))
+
+    def np_max(self, st, args, kw, node):
+        if kw or len(args) != 1:
+            raise Unsupported("np.max with axis / keywords")
+        a = self.as_arr(args[0]) if isinstance(args[0], Lst) else args[0]
+        return a.get(self._argext(st, a, True, node, "np.max"))
+
+    np_amin, np_amax = np_min, np_max
+
+    def np_isclose(self, st, args, kw, node):
+        """|a - b| <= atol + rtol * |b| over the reals (finite values; numpy's defaults rtol=1e-5, atol=1e-8)."""
+        from fractions import Fraction
+        extra = set(kw) - {"rtol", "atol"}
+        if extra or len(args) != 2:
+            raise Unsupported("np.isclose with equal_nan / positional tolerances")
+        def const(name, default):
+            v = kw.get(name, default)
+            if not isinstance(v, (int, float, Fraction)):
+                raise Unsupported(f"np.isclose with symbolic {name}")
+            return z3.RealVal(str(Fraction(v)))
+        rtol, atol = const("rtol", Fraction(1, 100000)), const("atol", Fraction(1, 100000000))
+        self.note_assumption("numpy: np.isclose(a, b) is |a - b| <= atol + rtol*|b| (finite values, real arithmetic)")
+        def f(x, y):
+            x, y = cast(x, "real"), cast(y, "real")
+            return num_cmp("<=", num_abs(x - y), atol + rtol * num_abs(y))
+        return self.elementwise(st, f, [args[0], args[1]], node, kind="bool", what="np.isclose")
+
+    def np_quantile(self, st, args, kw, node):
+        """np.quantile(a, q) of a 1-D array: the uninterpreted QUANTILE(id of a, q); obligations: non-empty array, 0 <= q <= 1."""
+        from specs.theory import SPEC_FUNCS
+        if kw or len(args) != 2 or not isinstance(args[0], Arr) or args[0].rank != 1:
+            raise Unsupported("np.quantile with axis / keywords / non-1-D input")
+        a, q = args
+        self.oblige(st, num_cmp(">=", a.shape[0], 1), "lib", "np.quantile: non-empty array", node)
+        self.oblige(st, mk_and(num_cmp("<=", 0, q), num_cmp("<=", q, 1)), "lib", "np.quantile: 0 <= q <= 1", node)
+        self.note_assumption("numpy: np.quantile(a, q) is the uninterpreted QUANTILE(a, q), a function of the values of a and of q only "
+                             "(that at most a fraction 1 - q of the entries exceed it is numpy's documented meaning, not proved)")
+        return SPEC_FUNCS["QUANTILE"](self, st, SPEC_FUNCS["arrid"](self, st, a), q)
+
     def np_cumsum(self, st, args, kw, node):
         a = self.as_arr(args[0])
         if a.rank != 1:
